@@ -95,7 +95,10 @@ Structure(o) ==
               \cup B(ExtDeclared(o), "C06.ExtDeclared")
     IN [bad |-> l4,
         det |-> {"Aligned:" \o MisalignCause(o, i) : i \in mis}
-                \cup {IF p.attrs = <<>> THEN "IndexValues:primitive-without-attributes" ELSE "IndexValues:not-a-vertex" :
+                \cup {IF p.attrs = <<>> THEN "IndexValues:primitive-without-attributes"
+                       ELSE IF At0(o.accs, p.idx).dec /\ DecMax(At0(o.accs, p.idx), 1) = Restart(At0(o.accs, p.idx).comp)
+                            THEN "IndexValues:primitive-restart-value"
+                       ELSE "IndexValues:not-a-vertex" :
                        p \in {q \in AllPrims(o) : ~IndexOK(o, q)}},
         sound |-> hz = {}]
 
